@@ -4,7 +4,7 @@ from hypothesis import strategies as st
 
 from .. import gen
 from ..common import graph_from_json, inconclusive, invalid_config, ok, violation
-from ..models import expand_nodes, materialize_kwargs, run_model, timed_out
+from ..models import expand_nodes, materialize_kwargs, run_model, solver_artifact, timed_out
 from ..oracle.l1flow import closest_flow_cost
 
 ID = "C16"
@@ -161,6 +161,8 @@ def run_case(case, tier="quick"):
     if not r.solved:
         if timed_out(r):
             return inconclusive("time_limit", labels)
+        if solver_artifact(case, tier, r):
+            return inconclusive("solver artefact: solved only with HiGHS presolve off", labels)
         return violation("unsolved", f"MinErrorFlow not solved (status {r.status}); a feasible correction always exists (x = 0)", labels, facts=facts)
     if r.sol_error:
         return violation("get_solution_crash", str(r.sol_error), labels, site=r.sol_error.site, facts=facts)
